@@ -129,7 +129,8 @@ def lemmas():
 TRUSTED = cm.TRUSTED_CORE
 ASSUMPTIONS = cm.ASSUME_CORE + ['assumption NoMathTokensInTextOutput (see DESIGN)', 'which macros exist and what they expand to (parameters.py, packages) is not judged']
 LEVEL_TEXT = 'Proves mechanism lemmas as postconditions of single functions: (closure) expand_sequence without env_stop and parse return no token of a markup class (Comment, Macro, Special, Begin, End, Item, Accent, Verbatim, MathBegin) and no Action/Void token -- no control sequence, brace or $ token survives; (tiling) the scanner tokens tile the source, so no character is lost or duplicated by tokenisation; (issue 23) arg_buffer always returns a non-empty buffer and pushes the collected tokens back at end of text; (skip comments) parser_work removes whole token ranges only; (flows) parse appends exactly the collected flows after the main text; maths: every token of a rendered formula is generated text or a pass-through text token. The catalogue-wide sentence (every typeset word appears once) is NOT decided: it needs a formal semantics of LaTeX expansion as oracle.'
-LEVEL_NOTE = 'End-to-end conservation of words is out of reach of per-function contracts; known finding F15 (control sequence of babel leaks from an environment end inside maths) is listed, not hidden.'
+LEVEL_NOTE = ('End-to-end conservation of words is out of reach of per-function contracts; known finding F15 (control sequence of babel leaks from an environment end inside maths) is listed, not hidden.'
+    + ' A bounded stand-in in the quick tier (hidden text -- skip comments incl. nested / stray / unclosed ones, comments, LTskip, labels -- on small documents; reported as bounded, not counted as proved) states the leak half of the sentence on the real code.')
 TECHNIQUE = 'contract-based deductive verification: per-function postconditions and loop invariants over the real AST, z3; end-to-end sentence of the property not decided'
 
 
